@@ -8,6 +8,8 @@ package main
 
 import (
 	"fmt"
+	"net/url"
+	"regexp"
 	"sort"
 	"strings"
 	"testing"
@@ -17,6 +19,8 @@ import (
 
 // The one recorded defect class of C33 (see the recognizer in c33Faithful).
 const c33KnownUpToDate = "C33-preview-uptodate-after-own-removal"
+
+var c33ShardFileRE = regexp.MustCompile(`^(.*)_v\d+\.\d{5}\.zoekt$`)
 
 func lsSortedKeys(m map[string]bool) []string {
 	out := make([]string, 0, len(m))
@@ -98,9 +102,30 @@ func c33Faithful(w *lsWorld, where string, ann, perf lsOutput, before, after lsS
 			problem(false, "-f printed removal of %s, the preview did not announce it", s)
 		}
 	}
+	// names the preview announces to (re)index: re-indexing a repository
+	// replaces all of its shards, so a higher-numbered shard of such a
+	// repository may disappear (the new index has fewer shards) without a
+	// removal line of its own
+	reindexed := map[string]bool{}
+	for _, k := range ann.Index {
+		reindexed[lsNameOf(k)] = true
+	}
+	shardName := func(s string) string {
+		if n := nameOfShard[s]; n != "" {
+			return n
+		}
+		// a shard the inventory does not list by itself (a higher-numbered
+		// shard): the repository name is the escaped prefix of the file name
+		if m := c33ShardFileRE.FindStringSubmatch(s); m != nil {
+			if n, err := url.QueryUnescape(m[1]); err == nil {
+				return n
+			}
+		}
+		return ""
+	}
 	for _, s := range lsSortedKeys(gone) {
-		if !annRm[s] {
-			problem(false, "-f deleted %s, the preview did not announce it", s)
+		if n := shardName(s); !annRm[s] && !(n != "" && reindexed[n]) {
+			problem(false, "-f deleted %s (repository %q), the preview did not announce it (announced for indexing: %v, for removal: %v)", s, shardName(s), lsSortedKeys(reindexed), lsSortedKeys(annRm))
 		}
 	}
 	// sidecars may only disappear together with an announced removal or a rewrite
